@@ -99,7 +99,7 @@ fn apply(op: u64, r: &mut Rng, zs: &[&ZoneCase], zi: &mut usize, cur: &Zoned) ->
         20 => {
             // with() + explicit offset + conflict strategy + disambiguation
             let off = if r.chance(1, 2) { cur.offset() } else { Offset::from_seconds(r.range(-50_000, 50_000) as i32).unwrap() };
-            let conflict = *r.pick(&[OffsetConflict::AlwaysTimeZone, OffsetConflict::PreferOffset, OffsetConflict::Reject]);
+            let conflict = *r.pick(&[OffsetConflict::AlwaysOffset, OffsetConflict::AlwaysTimeZone, OffsetConflict::PreferOffset, OffsetConflict::Reject]);
             let dis = *r.pick(&[Disambiguation::Compatible, Disambiguation::Earlier, Disambiguation::Later, Disambiguation::Reject]);
             ("with().offset().build", cur.with().hour(r.range(0, 23) as i8).offset(off).offset_conflict(conflict).disambiguation(dis).build().ok())
         }
